@@ -135,8 +135,9 @@ public:
 			for (size_t i = new_size; i < _size; i++)
 				container[i].~T();
 		} else {
+			// The arguments initialize several elements: they must not be forwarded (moved from).
 			for (size_t i = _size; i < new_size; i++)
-				new (&container[i]) T(std::forward<Args>(args)...);
+				new (&container[i]) T(args...);
 		}
 		_size = new_size;
 	}
